@@ -66,6 +66,8 @@ package source
 //@     assert [C10,C08:the-remote-change-feed-is-read-forward-from-the-stored-token-in-the-sources-own-mode] $arg2 == batchSize && $arg3 == datasetSource.LatestOnly && !$arg4
 //@   at call StreamEntitiesRaw#1 before
 //@     assert [C10,C08:the-remote-listing-is-read-with-the-requested-page-size] $arg2 == batchSize
+//@   at call StreamChangesRaw#2 before
+//@     assert [C10,C08:the-remote-change-feed-of-an-incremental-read-is-read-forward-from-the-stored-token-in-the-sources-own-mode] $arg2 == batchSize && $arg3 == datasetSource.LatestOnly && !$arg4
 
 // every member of the union is read with its own token: the continuation must have exactly one token per member, and the
 // union continuation reads as the token of the member that is active
